@@ -82,6 +82,18 @@ CompositionOK(rx, line, tx, adds, tol) == Within(rx, Composed(line, tx, adds), t
 MulDivPos(a, b, c) == (a \div c) * b + ((a % c) * b) \div c
 MulDiv(a, b, c)    == IF a >= 0 THEN MulDivPos(a, b, c) ELSE 0 - MulDivPos(0 - a, b, c)
 
+(* The equipment file lists the points of a table as pairs (boundary, penalty) in ANY order.  The table meant is *)
+(* the set of these pairs ordered by boundary; when every boundary is positive the point (0, 0) belongs to it    *)
+(* ("0 penalty for 0 impairment").  pts: sequence of [x, y] as written; boundaries are distinct.                  *)
+TableOf(pts) ==
+  LET given == {pts[i] : i \in 1..Len(pts)}
+      P  == IF given # {} /\ (\A p \in given : p.x > 0) THEN given \cup {[x |-> 0, y |-> 0]} ELSE given
+      X  == {p.x : p \in P}
+      Kth(k) == CHOOSE x \in X : Cardinality({z \in X : z < x}) = k - 1
+  IN  [x |-> [k \in 1..Cardinality(X) |-> Kth(k)],
+       y |-> [k \in 1..Cardinality(X) |-> (CHOOSE p \in P : p.x = Kth(k)).y]]
+PointsOK(pts) == \A i, j \in 1..Len(pts) : i # j => pts[i].x # pts[j].x
+
 TableOK(tab) == /\ Len(tab.x) = Len(tab.y)
                 /\ IsStrictlyIncreasing(tab.x)
                 /\ \A k \in 1..(Len(tab.x) - 1) : tab.x[k + 1] - tab.x[k] <= 46340
